@@ -72,10 +72,27 @@ def main(argv):
 
     acc = dict(evaluations=0, nontrivial=0, classes=set(), features=collections.Counter(),
                streams=collections.Counter(), samples=[], violations=[], timeouts=0,
-               rejected=collections.Counter(), counters=collections.Counter(), errors=[])
+               rejected=collections.Counter(), counters=collections.Counter(), errors=[], generator_errors=[])
     nviol_by_class = collections.Counter()
+    # a crash inside the workload GENERATOR (harness code, not the code under test) ends that generator; what was executed
+    # so far stays valid, and generation restarts under a derived seed (at most 5 times; recorded in the evidence)
+    restarts, index = 0, -1
     try:
-        for index, case in enumerate(mon.cases(seed, tier, shard, nshards)):
+        it = iter(mon.cases(seed, tier, shard, nshards))
+        while True:
+            try:
+                case = next(it)
+            except StopIteration:
+                break
+            except Exception:
+                restarts += 1
+                acc['generator_errors'].append(traceback.format_exc()[-1500:])
+                if restarts > 5:
+                    acc['errors'].append('workload generator failed more than 5 times: ' + acc['generator_errors'][-1])
+                    break
+                it = iter(mon.cases(seed * 1000003 + restarts, tier, shard, nshards))
+                continue
+            index += 1
             stream = stream_of(mon, case, open_keys)
             res = run_one(mon, case, case_timeout)
             acc['evaluations'] += res.get('evaluations', 1)
@@ -110,6 +127,7 @@ def main(argv):
                                                   case=case, shard=shard, index=index))
     except Exception:
         acc['errors'].append(traceback.format_exc())
+    acc['counters']['harness.generator_restarts'] += restarts
     for k, v in hooks.COUNTERS.items():
         acc['counters']['hook.' + k] += v
     acc['linecov'] = linecov.stop(cov)
